@@ -1992,6 +1992,121 @@ def k_abstract_selection(R, S):
     return out
 
 
+def k_object_selection(R, S):
+    """codegen::selection::render_fragment for a fragment F0 on the *object* type o0 with S selections of symbolic kind:
+    `__typename`, the leaf field, an inline fragment whose type condition is o0 itself / an interface o0 implements / a
+    union o0 belongs to, or a spread of F1 / F2 defined on one of those types.  All of these are valid GraphQL and apply
+    to every o0 value, so (C01) the struct for F0 must carry the inline fragment's fields and one flattened field per
+    spread."""
+    import summaries as Sm
+    f = R.fn('render_fragment')
+    out = []
+    kinds = R.L.enums['Selection']
+    i_field, i_inline, i_spread, i_typename = (kinds.index(x) for x in ('Field', 'InlineFragment', 'FragmentSpread', 'Typename'))
+    tk = R.L.enums['TypeId']
+    holder = {}
+    sk = [z3.BitVec(f'os_k{s}', 8) for s in range(S)]
+    cond = [z3.BitVec(f'os_c{s}', 8) for s in range(S)]        # inline fragment: 0 -> o0, 2 -> I0, 3 -> U0
+    st_fr = [z3.BitVec(f'os_f{s}', 8) for s in range(S)]       # spread: fragment 1 / 2
+    fr_on = [z3.BitVec(f'os_on{k}', 8) for k in (1, 2)]        # F1 / F2: 0 -> o0, 2 -> I0, 3 -> U0
+    ON = ABSTRACT_OBJ_NAMES
+
+    def ty_of(code, B):
+        d = z3.If(code == 2, bv(tk.index('Interface'), 8), z3.If(code == 3, bv(tk.index('Union'), 8), bv(tk.index('Object'), 8)))
+        return SymEnum(d, {tk.index('Object'): (B.newtype('ObjectId', bv(0, 32)),), tk.index('Interface'): (B.newtype('InterfaceId', bv(0, 64)),),
+                           tk.index('Union'): (B.newtype('UnionId', bv(0, 64)),)})
+
+    def setup(st, B):
+        schema, sv = abstract_schema(B, st, 'os_', members=[True, True], obj_names=ON)
+        tid_s = B.variant('TypeId', 'Scalar', B.newtype('ScalarId', bv(0, 64)))
+        leaf = B.struct('StoredField', name=StrV('leaf'), type=B.struct('StoredFieldType', id=tid_s, qualifiers=VecV(())),
+                        parent=B.variant('StoredFieldParent', 'Object', B.newtype('ObjectId', bv(0, 32))), deprecation=none())
+        names = R.L.structs['Schema']
+        fs = list(schema.fields)
+        fs[names.index('stored_fields')] = VecV([leaf])
+        schema = Agg(None, fs, 'Schema')
+        holder['sv'] = sv
+        applies = lambda code: z3.Or(code == 0, z3.And(code == 2, sv['impl'][0]), code == 3)     # o0 is a member of U0 in this scenario
+        for s in range(S):
+            st.pc += [z3.Or(sk[s] == i_field, sk[s] == i_inline, sk[s] == i_spread, sk[s] == i_typename), z3.Or(st_fr[s] == 1, st_fr[s] == 2)]
+            st.pc.append(z3.Implies(sk[s] == i_inline, applies(cond[s])))
+            st.pc.append(z3.Implies(sk[s] == i_spread, z3.And(*[z3.Implies(st_fr[s] == k + 1, applies(fr_on[k])) for k in range(2)])))
+        # the response key `leaf` is produced by at most one selection (merging of equal keys is not what is claimed here)
+        st.pc.append(z3.Sum([z3.If(z3.Or(sk[s] == i_field, sk[s] == i_inline), 1, 0) for s in range(S)]) <= 1)
+        for a in range(S):
+            for b_ in range(a + 1, S):
+                st.pc.append(z3.Not(z3.And(sk[a] == i_spread, sk[b_] == i_spread, st_fr[a] == st_fr[b_])))
+        for k in range(2):
+            st.pc.append(z3.Or(fr_on[k] == 0, fr_on[k] == 2, fr_on[k] == 3))
+        sid = lambda n: B.newtype('SelectionId', bv(n, 32))
+        selections, parents, top = [], [], []
+        mk_leaf = lambda: B.variant('Selection', 'Field', B.struct('SelectedField', alias=none(), field_id=B.newtype('StoredFieldId', bv(0, 64)), selection_set=VecV(())))
+        for s in range(S):
+            me = len(selections)
+            child = me + 1
+            leaf_sel = B.struct('SelectedField', alias=none(), field_id=B.newtype('StoredFieldId', bv(0, 64)), selection_set=VecV(()))
+            inline = B.struct('InlineFragment', type_id=ty_of(cond[s], B), selection_set=VecV([sid(child)]))
+            selections.append(SymEnum(sk[s], {i_field: (leaf_sel,), i_inline: (inline,), i_spread: (B.newtype('ResolvedFragmentId', z3.ZeroExt(24, st_fr[s])),), i_typename: ()}))
+            parents.append((sid(me), B.variant('SelectionParent', 'Fragment', B.newtype('ResolvedFragmentId', bv(0, 32)))))
+            selections.append(mk_leaf())
+            parents.append((sid(child), B.variant('SelectionParent', 'InlineFragment', sid(me))))
+            top.append(sid(me))
+        frags = [B.struct('ResolvedFragment', name=StrV('F0'), on=B.variant('TypeId', 'Object', B.newtype('ObjectId', bv(0, 32))), selection_set=VecV(top))]
+        for k in range(2):
+            frags.append(B.struct('ResolvedFragment', name=StrV(f'F{k + 1}'), on=ty_of(fr_on[k], B), selection_set=VecV(())))
+        q = B.struct('Query', fragments=VecV(frags), operations=VecV(()), selection_parent_idx=B.btreemap(parents), selections=VecV(selections), variables=VecV(()))
+        bq = B.cell(B.struct('BoundQuery', query=B.cell(q), schema=B.cell(schema)))
+        opts = B.cell(options_value(B))
+        R.vm.push_call(st, f, [B.newtype('ResolvedFragmentId', bv(0, 32)), opts, bq], None, None)
+    outs, _ = R.explore(f'render_fragment on an object type ({S} selections)', setup)
+    sv = holder.get('sv')
+    ES = R.L.structs.get('ExpandedSelection')
+    EF, TA = R.L.structs.get('ExpandedField'), R.L.structs.get('TypeAlias')
+    names_ = {0: ON[0], 2: 'I0', 3: 'U0'}
+
+    def model_of(m):
+        ev = lambda x: m.eval(x, model_completion=True)
+        sels = []
+        for s in range(S):
+            k = ev(sk[s]).as_long()
+            sels.append('__typename' if k == i_typename else 'leaf' if k == i_field else f'... on {names_[ev(cond[s]).as_long()]} {{ leaf }}' if k == i_inline else f'...F{ev(st_fr[s]).as_long()}')
+        return dict(parent='object', selections=sels, F1_on=names_[ev(fr_on[0]).as_long()], F2_on=names_[ev(fr_on[1]).as_long()],
+                    implements=[z3.is_true(ev(x)) for x in sv['impl']], members=[True, True], obj_names=list(ON))
+    for o in outs:
+        if o.kind != 'return':
+            if o.kind == 'panic':
+                m = R.prove('object_selection', o, z3.BoolVal(False), 'no panic on a valid selection')
+                if m is not None:
+                    out.append(dict(kernel='object_selection', prop='C01', what=f'panic: {o.msg}', model=model_of(m)))
+            elif o.kind != 'limit':
+                R.inconclusive.append(f'object_selection: {o.kind}: {o.msg}')
+            continue
+        es = o.value
+        fields = es.fields[ES.index('fields')].items
+        aliases = es.fields[ES.index('aliases')].items
+        fl = [x for x in fields if z3.is_true(simp(x.fields[EF.index('struct_id')].fields[0] == bv(0, 32)))]
+        al = [a for a in aliases if z3.is_true(simp(a.fields[TA.index('struct_id')].fields[0] == bv(0, 32)))]
+        n_flat = sum(1 for x in fl if z3.is_true(simp(x.fields[EF.index('flatten')])))
+        n_plain = len(fl) - n_flat
+        n_leaf = z3.Sum([z3.If(z3.Or(sk[s] == i_field, sk[s] == i_inline), 1, 0) for s in range(S)])
+        n_inline = z3.Sum([z3.If(sk[s] == i_inline, 1, 0) for s in range(S)])
+        n_spread = z3.Sum([z3.If(sk[s] == i_spread, 1, 0) for s in range(S)])
+        claims = {}
+        if al:
+            claims['C01:object-alias-only-for-single-spread'] = z3.And(n_spread == 1, n_leaf == 0)
+        else:
+            claims['C01:object-parent-inline-fragment-fields-kept'] = z3.Implies(n_inline > 0, n_leaf == n_plain)
+            claims['C01:object-parent-every-spread-kept'] = n_spread == n_flat
+            claims['C01:object-parent-fields-kept'] = z3.Implies(n_inline == 0, n_leaf == n_plain)
+        m = R.prove('object_selection', o, z3.And(*claims.values()), 'fields of an object selection')
+        if m is not None:
+            failing = [nm for nm, c in claims.items() if not z3.is_true(m.eval(c, model_completion=True))]
+            for nm in failing[:2] or ['C01:?']:
+                out.append(dict(kernel='object_selection', prop='C01', what=nm, model=model_of(m), struct_fields=[repr(x)[:80] for x in fl][:4]))
+    R.sample(dict(kernel='object_selection', selections=S, paths=len(outs)))
+    return out
+
+
 def str_same(a, b):
     if isinstance(a.s, str) and isinstance(b.s, str):
         return a.s == b.s
